@@ -72,14 +72,20 @@ Proof. unfold cmprect, key_le. destruct (top a =? top b) eqn:E; cbn [negb]; lia.
 Lemma sep_sym a b : sep a b -> sep b a.
 Proof. unfold sep; lia. Qed.
 
+Lemma sepx_sym a b : sepx a b -> sepx b a.
+Proof. unfold sepx, sep, novm; lia. Qed.
+
+Lemma sepx_sep a b : sepx a b -> sep a b.
+Proof. unfold sepx; tauto. Qed.
+
 Lemma sep_disjoint a b : sep a b -> disjoint2 a b.
 Proof. unfold sep, disjoint2, cell_in. intros H [y x]; cbn [fst snd]. lia. Qed.
 
-Lemma pairwise_sep_disjoint s : pairwise sep s -> pairwise_disjoint s.
+Lemma pairwise_sep_disjoint s : pairwise sepx s -> pairwise_disjoint s.
 Proof.
   induction s as [|a s IH]; cbn [pairwise pairwise_disjoint]; [auto|].
   intros [H1 H2]. split; [|auto].
-  eapply Forall_impl; [|exact H1]. intros b; apply sep_disjoint.
+  eapply Forall_impl; [|exact H1]. intros b Hb; apply sep_disjoint, sepx_sep, Hb.
 Qed.
 
 Lemma sortedb_iff s : sortedb s = true <-> sorted s.
@@ -112,7 +118,7 @@ Lemma Inv_In_nonempty s x : Inv s -> In x s -> nonempty x.
 Proof. intros [Hn _] Hx. rewrite Forall_forall in Hn. auto. Qed.
 
 Lemma Inv_insert_mid pre post c :
-  Inv (pre ++ post) -> nonempty c -> Forall (sep c) (pre ++ post) ->
+  Inv (pre ++ post) -> nonempty c -> Forall (sepx c) (pre ++ post) ->
   Forall (fun y => key_le y c) pre -> Forall (key_le c) post ->
   Inv (pre ++ c :: post).
 Proof.
@@ -121,11 +127,13 @@ Proof.
   rewrite pairwise_app in Hs, Ho.
   destruct Hs as [Hsa [Hsb Hsc]]. destruct Ho as [Hoa [Hob Hoc]].
   rewrite Forall_forall in Hs1, Hs2, Hpre, Hpost.
-  repeat split.
+  split; [|split].
   - rewrite Forall_app. split; auto.
-  - rewrite pairwise_app, pairwise_cons, Forall_forall. repeat split; auto.
-    intros x y Hx [<-|Hy]; auto. apply sep_sym; auto.
-  - rewrite pairwise_app, pairwise_cons, Forall_forall. repeat split; auto.
+  - rewrite pairwise_app, pairwise_cons, Forall_forall.
+    split; [exact Hsa|]. split; [split; [exact Hs2|exact Hsb]|].
+    intros x y Hx [<-|Hy]; auto. apply sepx_sym; auto.
+  - rewrite pairwise_app, pairwise_cons, Forall_forall.
+    split; [exact Hoa|]. split; [split; [exact Hpost|exact Hob]|].
     intros x y Hx [<-|Hy]; auto.
 Qed.
 
@@ -162,7 +170,7 @@ Proof. unfold init_bounded, bottom, right; cbn [top left lines cols]. lia. Qed.
 
 Definition scan_post (cur : rect) (s : rectset) (i0 : nat) (res : scan_result) : Prop :=
   match res with
-  | ScInsert => Forall (sep cur) s
+  | ScInsert => Forall (sepx cur) s
   | ScReturn => exists x, In x s /\ forall p, cell_in cur p -> cell_in x p
   | ScMerge i t' b' l' r' =>
       exists pre x post, s = pre ++ x :: post /\ i = (i0 + length pre)%nat /\
@@ -172,7 +180,7 @@ Definition scan_post (cur : rect) (s : rectset) (i0 : nat) (res : scan_result) :
   end.
 
 Lemma scan_post_shift cur x rest i0 res :
-  scan_post cur rest (S i0) res -> sep cur x -> scan_post cur (x :: rest) i0 res.
+  scan_post cur rest (S i0) res -> sepx cur x -> scan_post cur (x :: rest) i0 res.
 Proof.
   destruct res as [| |i t' b' l' r'|i y]; cbn [scan_post].
   - intros H Hx. constructor; auto.
@@ -197,10 +205,12 @@ Proof.
     destruct (b <? top x) eqn:Ebreak.
     { (* break: everything from here on starts below the bottom *)
       cbn [scan_post]. constructor.
-      - unfold sep. lia.
-      - eapply Forall_impl; [|exact Hxle]. intros y Hy. unfold key_le in Hy. unfold sep. lia. }
+      - unfold sepx, sep, novm, bottom, right in *. lia.
+      - rewrite Forall_forall in Hxle, Hrest. apply Forall_forall. intros y Hy.
+        pose proof (Hxle y Hy) as Hk. pose proof (Hrest y Hy) as Hyn.
+        unfold key_le, nonempty in *. unfold sepx, sep, novm, bottom, right in *. lia. }
     destruct ((t >? bottom x) || (l >? right x) || (r <? left x)) eqn:Eskip.
-    { apply scan_post_shift; [apply IH; assumption|]. unfold sep. lia. }
+    { apply scan_post_shift; [apply IH; assumption|]. unfold sepx, sep, novm, bottom, right in *. lia. }
     destruct (r_contains x cur) eqn:Econt.
     { cbn [scan_post]. exists x. split; [left; reflexivity|].
       apply contains_iff; [|exact Econt]. unfold nonempty, bottom, right in *. lia. }
@@ -214,7 +224,7 @@ Proof.
         intros [py px]; unfold cell_in, init_bounded, bottom, right;
         cbn [top left lines cols fst snd]; lia. }
     destruct ((t =? bottom x) || (b =? top x)) eqn:Etouch.
-    { apply scan_post_shift; [apply IH; assumption|]. unfold sep. lia. }
+    { apply scan_post_shift; [apply IH; assumption|]. unfold sepx, sep, novm, bottom, right in *. lia. }
     cbn [scan_post]. exists [], rest. cbn [app length]. split; [reflexivity|lia].
 Qed.
 
